@@ -1701,6 +1701,19 @@ func init() {
 			fn := p.MustFn("reflect.structToMap")
 			var isAddr func(v ssa.Value) bool
 			isAddr = func(v ssa.Value) bool {
+				// an address, or a key that holds one next to the type (C17.R23)
+				switch k := v.Type().Underlying().(type) {
+				case *types.Basic:
+					if k.Kind() == types.Uintptr {
+						return true
+					}
+				case *types.Struct:
+					for i := 0; i < k.NumFields(); i++ {
+						if b, ok := k.Field(i).Type().Underlying().(*types.Basic); ok && b.Kind() == types.Uintptr {
+							return true
+						}
+					}
+				}
 				for _, o := range append(p.origins(v, OriginOpts{}), v) {
 					if cl, ok := o.(*ssa.Call); ok && calleeName(&cl.Call) == "(reflect.Value).Pointer" {
 						return true
